@@ -271,7 +271,7 @@ class Recorder(layer.Layer):
 class Bound:
     """real mode layer + real NextLayer addon bound to the next_layer hook of a sans-io driver"""
 
-    def __init__(self, mode, dest, opts, *, replace_intercept, scheme="http"):
+    def __init__(self, mode, dest, opts, *, replace_intercept, scheme="http", early=b""):
         import mitmproxy.ctx as mctx
 
         self.mctx = mctx
@@ -306,7 +306,8 @@ class Bound:
                     self.decisions.append((len(hook.data.data_client()), k))
                     if k == "intercept" and self.replace_intercept:
                         hook.data.layer = Recorder(ctx)
-            elif self.armed:
+            elif self.armed and hook.name not in ("http_connect", "http_connected", "server_connect", "server_connected"):
+                # (the proxy's own handling of the CONNECT request is not interception of the tunnelled connection)
                 self.hooks_after_arm.append(hook.name)
             return True
 
@@ -320,7 +321,10 @@ class Bound:
         d.start()
         self.preamble_ok = True
         if mode == "regular":
-            d.data(ctx.client, f"CONNECT {host}:{port} HTTP/1.1\r\nHost: {host}:{port}\r\n\r\n".encode())
+            # `early`: tunnel bytes the client sends in the same segment as its CONNECT request (before the 200)
+            if early:
+                self.armed = True
+            d.data(ctx.client, f"CONNECT {host}:{port} HTTP/1.1\r\nHost: {host}:{port}\r\n\r\n".encode() + early)
             self.preamble_ok = d.sent_to(ctx.client).startswith(b"HTTP/1.1 200")
         elif mode == "socks5":
             if host[0].isdigit():
@@ -541,7 +545,15 @@ def h_relay(X, nsteps, nmarks):
         data = RAW_FLIGHT
     # (a first segment below the documented 3-byte minimum is not recognised as TLS: only meaningful when the rule decides)
     t = X.choose("cut", [0, 3, 5, len(data) // 2, len(data) - 1] if via == "tls_clienthello-hook" else [0, 1, 3, 5, len(data) // 2, len(data) - 1])
-    b = Bound(mode, dest, _options(ignore, allow, strategy), replace_intercept=False, scheme=scheme)
+    early = b""
+    if mode == "regular" and via != "tls_clienthello-hook":
+        # part of the first flight may already arrive in the CONNECT request's segment
+        e = X.choose("early_tunnel_bytes", ["none", "first-line", "whole-flight"])
+        if e != "none":
+            cutpos = len(data) if e == "whole-flight" else (data.find(b"\n") + 1 or len(data))
+            early, rest_data = data[:cutpos], data[cutpos:]
+            X.reach("early-tunnel-bytes")
+    b = Bound(mode, dest, _options(ignore, allow, strategy), replace_intercept=False, scheme=scheme, early=early)
     try:
         ctx, d = b.ctx, b.d
         if via == "tls_clienthello-hook":
@@ -557,7 +569,10 @@ def h_relay(X, nsteps, nmarks):
             d.on_hook = on_hook
         X.check(b.preamble_ok, f"C19/relay/{mode}/preamble", "mode preamble failed")
         pre_server = {c: len(v) for c, v in d.sent.items()}
-        segs = [data] if t == 0 else [data[:t], data[t:]]
+        if early:
+            segs = [rest_data] if rest_data else []
+        else:
+            segs = [data] if t == 0 else [data[:t], data[t:]]
         for s in segs:
             d.data(ctx.client, s)
         exp_server = bytearray(data)
